@@ -66,6 +66,8 @@ def analyse(lat, coords, sites, framework, labels, endpoints=None, do_path=True)
             return None
         res['states'] = np.array(tr.states)
         res['inner'] = np.array(tr.inner_states)
+        # results keyed by site LABEL: the same for every order in which the sites are listed
+        res['by_label'] = {'atom_locations': dict(tr.atom_locations()), 'occupancy_by_site_type': dict(tr.occupancy_by_site_type())}
         res['events'] = sorted(map(tuple, tr.events[ECOLS].to_numpy().tolist()))
         try:
             j = tr.jumps()
@@ -124,6 +126,10 @@ def compare(out, case, base, other, what, atom_perm=None, site_perm=None, roll=N
     exp_inner = np.vectorize(inv_s)(base['inner'][:, ap])
     if not np.array_equal(other['inner'], exp_inner):
         return fail('inner-states-invariant', exp_inner.T.tolist(), other['inner'].T.tolist())
+    for nm in base['by_label']:
+        b_, o_ = base['by_label'][nm], other['by_label'][nm]
+        if b_.keys() != o_.keys() or any(abs(float(b_[k]) - float(o_[k])) > 1e-12 for k in b_):
+            return fail('label-keyed-results-invariant', {nm: {k: float(v) for k, v in b_.items()}}, {nm: {k: float(v) for k, v in o_.items()}})
     ev = sorted((inv_a[e[0]], inv_s(e[1]), inv_s(e[2]), inv_s(e[3]), inv_s(e[4]), e[5]) for e in base['events'])
     if other['events'] != ev:
         return fail('events-invariant', ev[:6], other['events'][:6])
@@ -223,6 +229,36 @@ def corpus():
     return [json.loads(p.read_text()) for p in sorted(d.glob('*.json'))] if d.exists() else []
 
 
+def check_translation_to_face(out: Outcome, rng):
+    """a translation by whole voxels that carries an atom from the interior to a few 1e-6 (… 1e-12) below a cell face: the
+    density volume is still the rolled volume, the positions are still (x + t) mod 1"""
+    name, lat = gem.lattice_pool(rng)
+    T, A = int(rng.integers(2, 5)), int(rng.integers(1, 4))
+    coords = rng.integers(0, 64, size=(T, A, 3)) / 64 + 1 / 256
+    base_tr = gem.make_traj(coords, lat, ['Li'] * A)
+    v0 = np.array(trajectory_to_volume(base_tr, resolution=0.9).data)
+    n = np.array(v0.shape)
+    kv = rng.integers(1, 4, size=3)
+    tau = kv / n
+    eps = float(rng.choice([3e-6, 4e-7, 1e-9, 1e-12]))
+    ax = int(rng.integers(3))
+    coords = coords.copy()
+    coords[0, 0, ax] = float(np.mod(1 - eps - tau[ax], 1))
+    out.evaluations += 1
+    case = {'translation_to_face': True, 'lattice_name': name, 'lattice': lat.tolist(), 'coords': coords.tolist(), 'voxel_shift': kv.tolist(), 'below_face_by': eps}
+    tr0 = gem.make_traj(coords, lat, ['Li'] * A)
+    tr1 = gem.make_traj(coords + tau, lat, ['Li'] * A)
+    va, vb = np.array(trajectory_to_volume(tr0, resolution=0.9).data), np.array(trajectory_to_volume(tr1, resolution=0.9).data)
+    want = np.roll(va, tuple(int(x) for x in kv), axis=(0, 1, 2))
+    p1 = np.array(tr1.positions)
+    dd = p1 - np.mod(coords + tau, 1)
+    if np.any(np.abs(dd - np.round(dd)) > 1e-12) or np.any(np.abs(dd) > 0.5):
+        out.fail('property', 'positions-translated', case, expected=np.mod(coords + tau, 1)[0, 0].tolist(), observed=p1[0, 0].tolist())
+    elif vb.shape != want.shape or not np.array_equal(vb, want):
+        out.fail('property', 'volume-rolled', case, expected=np.argwhere(want > 0).tolist()[:6], observed=np.argwhere(vb > 0).tolist()[:6], note='translation')
+    out.nontrivial.add(('to-face', json.dumps(case['coords'])))
+
+
 def run(tier: str, seed: int, scale: int) -> Outcome:
     out = Outcome()
     rng = np.random.default_rng(seed)
@@ -230,11 +266,15 @@ def run(tier: str, seed: int, scale: int) -> Outcome:
         check_case(out, case, 'corpus', rng)
     for _ in range((60 if tier == 'quick' else 600) * scale):
         check_case(out, gen_system(rng), 'random', rng)
+    for _ in range((40 if tier == 'quick' else 400) * scale):
+        check_translation_to_face(out, rng)
     return out
 
 
 def replay(case):
     out = Outcome()
+    if case.get('translation_to_face'):
+        return True, 'translation-to-face cases: re-run ./check C07 quick with the recorded seed'
     c = {k: v for k, v in case.items() if k != 'transformation'}
     check_case(out, c, 'replay', np.random.default_rng(0))
     fails = [f for f in out.failures if f.kind == 'property']
